@@ -22,11 +22,16 @@ def _counters(lines, verdicts):
          "unprepared_on_later_page": 0, "slow_consumer_error_on_page_ge2_seen_by_caller": 0,
          "timeout_cases": 0, "early_timeout_accepted": 0, "not_run": 0,
          "single_page_cases": 0, "single_page_with_caller_state_and_retry": 0,
-         "coordinator_checked_multi_node_multi_page": 0}
+         "coordinator_checked_multi_node_multi_page": 0, "forced_early_timeout_cases": 0}
     for ln, v in zip(lines, verdicts):
         parts = ln.split("|")
         case = parts[0].split()
         if len(case) < 7:
+            continue
+        obs0 = parts[1].split() if len(parts) > 1 else []
+        if obs0 and obs0[0] in ("error", "replay-error"):
+            # a case that did not run exercises nothing: it counts only here
+            c["not_run"] += 1
             continue
         script = case[6]
         pages = script.split(";")
@@ -53,8 +58,10 @@ def _counters(lines, verdicts):
             c["drop_cases"] += 1
         if case[1] == "c":
             c["connection_pager_cases"] += 1
-        if case[0] == "T":
+        if case[0] in ("T", "E"):
             c["timeout_cases"] += 1
+        if case[0] == "E":
+            c["forced_early_timeout_cases"] += 1
         if case[0] == "P":
             c["single_page_cases"] += 1
             if case[3] != "stN" and len(parts) > 1 and parts[1].split()[-1].count(",") >= 1:
@@ -69,8 +76,6 @@ def _counters(lines, verdicts):
         if any("U" in f.split(",") for f in faults[1:]):
             c["unprepared_on_later_page"] += 1
         obs = parts[1].split() if len(parts) > 1 else []
-        if obs and obs[0] == "error":
-            c["not_run"] += 1
         if obs and obs[0].startswith("f"):
             c["cases_ctor_error"] += 1
         if obs:
@@ -87,24 +92,29 @@ def _extra(lines, verdicts):
     return _counters(lines, verdicts)
 
 
-# what a run must really have exercised (per 443 generated cases; scaled for bigger runs);
-# a replay (a handful of lines) is exempt
+# what a run must really have exercised, counted over the cases that RAN (quick run: 507 cases;
+# scaled for bigger runs); post is not called for replays, small inputs are exempt from the floors
+# but not from the not-run guard
 _FLOORS = {"drop_cases": 40, "connection_pager_cases": 40, "cases_with_nonretried_failure": 40,
            "cases_ctor_error": 10, "cases_with_empty_page": 150, "cases_ignore_write_error": 2,
            "cases_nonrows_reply": 5, "cases_plan_exhausted": 3, "unprepared_on_later_page": 12,
-           "slow_consumer_error_on_page_ge2_seen_by_caller": 10, "timeout_cases": 4,
+           "slow_consumer_error_on_page_ge2_seen_by_caller": 10, "timeout_cases": 5,
            "cases_connection_reset": 2, "requests_seen": 1500, "single_page_cases": 25,
-           "single_page_with_caller_state_and_retry": 5, "coordinator_checked_multi_node_multi_page": 100}
+           "single_page_with_caller_state_and_retry": 5, "coordinator_checked_multi_node_multi_page": 100,
+           "early_timeout_accepted": 1}
 
 
 def _post(lines, verdicts):
     out = []
-    if len(lines) < 300:
-        return out
     c = _counters(lines, verdicts)
+    if len(lines) < 300:
+        # a small input (should post ever be called for one): no floors, but nothing may pass by not running
+        if c["not_run"]:
+            out.append(("diff", "not-run", f"diff {c['not_run']} cases did not run"))
+        return out
     scale = max(1, len(lines) // 1500)
     # families of fixed size do not grow with the random part of a thorough run
-    fixed_big = {"timeout_cases": 10, "single_page_cases": 150, "single_page_with_caller_state_and_retry": 30,
+    fixed_big = {"timeout_cases": 14, "early_timeout_accepted": 3, "single_page_cases": 150, "single_page_with_caller_state_and_retry": 30,
                  "slow_consumer_error_on_page_ge2_seen_by_caller": 60}
     for k, floor in _FLOORS.items():
         need = floor * scale if k not in fixed_big else (floor if scale == 1 else fixed_big[k])
@@ -114,7 +124,7 @@ def _post(lines, verdicts):
     cap = max(2, len(lines) // 200)
     if c["not_run"] > cap:
         out.append(("diff", "not-run", f"diff {c['not_run']} cases did not run (cap {cap})"))
-    # the early-timeout tolerance may only be used by the few T cases
+    # the early-timeout tolerance may only be used by the few T / E cases
     if c["early_timeout_accepted"] > c["timeout_cases"]:
         out.append(("diff", "early-timeout", "diff early-timeout tolerance used outside T cases"))
     return out
@@ -125,30 +135,34 @@ SPEC = {
     "coq_targets": ["Props/C07.vo", "Extract/ExC07.vo"],
     "bin": "c07",
     "sizes": {"quick": 400, "thorough": 20000},
-    "min_cases": {"quick": 490, "thorough": 19500},
+    "min_cases": {"quick": 495, "thorough": 19500},
     "post": _post,
     "search_n": 4000,
     "runner_timeout": 2400,
     "rule": ("e2e: the real pagers against mocknode -- Session::query_iter (api q), Session::execute_iter (api e; E = cached "
              "result metadata) and, through the hook scylla::client::verif_pager, Connection::execute_iter on a bare "
-             "connection (mode c, the control connection's pager). 39 systematic cases (all page-size sequences over "
-             "{0,1,2} of length <= 3) + seeded random scripts: result sets of 0..N distinct rows (N = 40 quick / 400 "
-             "thorough) split into 1..9 (24 thorough) pages with empty pages anywhere, random paging states (empty, 1 byte, "
-             "300 bytes, repeated), per-page faults (ERROR frames whose retry decision same/next/dont/ignore is taken by a "
-             "scripted retry policy or by DefaultRetryPolicy idempotent / non-idempotent, delayed replies, connection "
-             "reset, client-side timeout, plan exhaustion, Void / non-RESULT replies), 1..4 nodes; consumer = full read (F), "
-             "slow (S; incl. 16/80 cases 'slow consumer x error on a page >= 2'), every Pending poll cancelled (J), early drop "
-             "after n items (D); 16/80 cases with the prepared statement evicted on a later page (U: UNPREPARED, transparent "
-             "re-prepare, re-sent EXECUTE); 30/200 single-page cases (P: query_single_page / execute_single_page resumed with a "
-             "caller-supplied paging state); timeout cases (T). The mock node of every request is compared with coordinator "
-             "stability (coord_ok). "
+             "connection (mode c). quick = 507 cases: 39 systematic (all page-size sequences over {0,1,2} of length <= 3) + 400 "
+             "seeded random scripts (0..40 distinct rows, 1..9 pages, empty pages anywhere, random paging states, per-page "
+             "faults: ERROR frames whose retry decision same/next/dont/ignore is taken by a scripted retry policy or by "
+             "DefaultRetryPolicy idempotent / non-idempotent, UNPREPARED + re-prepare, delayed replies, connection reset "
+             "(retried or not), plan exhaustion, Void / non-RESULT replies, early 'no more pages'; 1..4 nodes; consumer = full "
+             "read F, slow S, every Pending poll cancelled J, early drop D) + 16 'slow consumer x error on a page >= 2' (S) + 16 "
+             "'prepared statement evicted on a later page' (U) + 30 single-page requests resumed with a caller-supplied paging "
+             "state (P: query_single_page / execute_single_page) + 4 client-timeout cases (T) + 2 forced early-timeout cases (E: "
+             "400 ms client timeout, a reply before the scripted T delayed by 2 s). thorough = 20 417 cases (39 + 20 000 random "
+             "with 0..400 rows / 1..24 pages + 80 + 80 + 200 + 12 + 6). Observed: the items the caller saw and, from the mock's "
+             "trace, (Rows pages served before, paging_state, mock node) of every QUERY/EXECUTE of the statement. "
              "non-trivial = at least two pages or one fault; distinct = distinct case lines"),
     "nontrivial": _nontrivial,
     "extra_coverage": _extra,
     "trusted_base": [
-        "mocknode (/verif/harness/src/mocknode): serves the scripted pages/faults and records every frame; the runner "
-        "derives from its trace the paging_state of every QUERY/EXECUTE of the statement and the number of Rows pages "
-        "served before it",
+        "mocknode (harness/src/mocknode): serves the scripted pages/faults and records every frame; the runner "
+        "derives from its trace the paging_state and the receiving node of every QUERY/EXECUTE of the statement and the "
+        "number of Rows pages served before it",
+        "kind P (single page): the driver compares result and request count with single_run in OCaml; the sentence "
+        "'every attempt carries the caller's state' is evaluated by the driver itself (no Coq acceptor)",
+        "spec_page mirrors the retry loop clause by clause with a target count instead of targets; the independent part of "
+        "the specification is the stream level (`expected`)",
         "harness ScriptedPolicy (RetryPolicy whose decision is carried in the scripted error message) and the table of "
         "DefaultRetryPolicy decisions used by the generator (the policy itself is C06's subject)",
         "expected (strict) / spec_state / spec_error_stream are the property text transcribed; they are anchored by "
@@ -162,6 +176,13 @@ SPEC = {
         "(send needs a free permit or fails after the receiver is dropped; recv yields None only when closed and empty)",
         "early-drop cases: the request list may be snapshotted before the worker noticed the drop; the acceptor "
         "accepts every prefix between 'pages the consumer needed' and 'two pages more' (C07_read_ahead)",
+        "plans_ok: every plan enumerates the same node set (the driver uses the synthetic plan [0..n-1]; 1 shard per node)",
+        "verdicts: ok = accept_full / accept_drop (sound for prop_*_ok when plans_ok, outside class O1; drop: constructor "
+        "succeeded), accept_full_timeout (sound for the script with the timeout moved earlier), P: exact comparison in the "
+        "driver, or `ok not-run` (counted, capped at max(2, lines/200)); inside class O1 the property predicate is evaluated",
+        "wall-clock constants: T cases 4 s client timeout (earlier strike tolerated), E cases 400 ms vs a 2 s delayed reply, "
+        "watchdog 300 s per case (hang -> viol when a stream is expected), wait_pools 10 s after reset cases, settle loop "
+        "<= 400 ms after drop / timeout cases, hook connect_timeout 5 s (-> not-run)",
         "Connection::execute_iter is reached through the add-only hook scylla::client::verif_pager "
         "(opens a bare connection, prepares, calls execute_iter); the control connection's own use of it is not driven",
     ],
